@@ -614,4 +614,10 @@ theorem propStep_stores_passed {b : Block} {o : Option Proposal} {p' : Proposal}
   | executed p _ => cases hs
   | closed p st ho hst hne hexp => cases hs
 
+theorem cs_passed_of_isPassed {t : Tally} {b : Block} (ho : t.status = .open) (h : Cw3.isPassed t b = .ok true) :
+    Cw3.currentStatus t b = .ok .passed := by
+  unfold Cw3.currentStatus
+  rw [if_neg (by simp [ho]), h, ok_bind]
+  rfl
+
 end CwPlus.Cw3Core
